@@ -169,6 +169,16 @@ static void arbitrary_lists()
     list_alignment(xs::arch_list<xs::avx512vbmi2> {}, "avx512vbmi2");
 }
 
+template <class T>
+struct scalar_of
+{
+    using type = T;
+};
+template <class T>
+struct scalar_of<std::complex<T>>
+{
+    using type = T;
+};
 template <class T, size_t N>
 static void sized(const char* t)
 {
@@ -179,8 +189,19 @@ static void sized(const char* t)
         rel(R::size == N, "make_sized_batch has exactly N lanes", s);
         rel(std::is_same<typename R::value_type, T>::value, "make_sized_batch value type", s);
     }
-    else
-        rel(true, "make_sized_batch is void (no supported arch has N lanes)", s);
+    // independent walk over the supported architectures: void is the answer only when none of them has N lanes of T
+    bool exists = false;
+    std::string first;
+    xs::supported_architectures::for_each([&](auto a)
+                                          {
+        using A = decltype(a);
+        if constexpr (xs::has_simd_register<typename scalar_of<T>::type, A>::value)
+            if (xs::batch<T, A>::size == N && !exists)
+            {
+                exists = true;
+                first = A::name();
+            } });
+    rel(exists == !std::is_void<R>::value, "make_sized_batch is void exactly when no supported architecture has N lanes", s + (exists ? " (" + first + " has them)" : ""));
 }
 template <class T, size_t... Ns>
 static void sized_all(const char* t, std::index_sequence<Ns...>)
@@ -209,5 +230,7 @@ void vh::unit_main()
     sized_all<uint16_t>("uint16_t", std::make_index_sequence<128> {});
     sized_all<int32_t>("int32_t", std::make_index_sequence<128> {});
     sized_all<int64_t>("int64_t", std::make_index_sequence<128> {});
+    sized_all<std::complex<float>>("complex<float>", std::make_index_sequence<64> {});
+    sized_all<std::complex<double>>("complex<double>", std::make_index_sequence<64> {});
 }
 VH_MAIN()
